@@ -10,6 +10,7 @@ mod refcodec;
 mod w_codec;
 mod w_iovec;
 mod w_stream;
+mod w_threads;
 
 use std::path::Path;
 
@@ -22,7 +23,7 @@ pub const PROPS: &[&str] = &[
     "C18", "C19", "C20",
 ];
 
-pub static WORLDS: &[&'static dyn World] = &[&w_iovec::IovecWorld, &w_codec::CodecWorld, &w_codec::LongWorld, &w_stream::StreamWorld];
+pub static WORLDS: &[&'static dyn World] = &[&w_iovec::IovecWorld, &w_codec::CodecWorld, &w_codec::LongWorld, &w_stream::StreamWorld, &w_threads::ThreadsWorld];
 
 const DEFAULT_SEED: u64 = 20261004;
 
@@ -69,6 +70,8 @@ fn jobs_for(prop: &'static str, thorough: bool, scale: f64) -> (Vec<Job>, &'stat
         "C01" | "C02" | "C07" => (vec![mk("codec", 1.0)], "exploration"),
         "C09" => (vec![mk("codec", 1.0), mk("longrun", 1.0)], "exploration"),
         "C06" | "C08" => (vec![mk("stream", 1.0)], "exploration"),
+        "C13" => (vec![mk("threads", 1.0)], "exploration"),
+        "C18" => (vec![mk("threads", 1.0)], "fault_enumeration"),
         "C05" => (vec![mk("iovec", 0.7), mk("codec", 0.6), mk("stream", 0.4)], "exploration"),
         "C10" => (vec![mk("iovec", 0.5), mk("codec", 0.4), mk("stream", 0.3), mk("longrun", 1.0)], "exploration"),
         "C17" => (vec![mk("iovec", 0.6), mk("codec", 0.6)], "exploration"),
